@@ -27,8 +27,8 @@ PROPS = {
                 rule="async_disconnect at seeded instants in every client state; non-trivial = async_disconnect was initiated on a running client; distinct = distinct trace hash"),
     "C10": dict(level=EXPL, quick=30000, thorough=1000000,
                 rule="seeded configurations x handshake outcome sequences; non-trivial = >= 2 connection attempts; distinct = distinct trace hash"),
-    "C11": dict(level=EXPL, quick=24000, thorough=800000, components=["async_mutex"],
-                rule="system runs: non-trivial = >= 1 reconnect; component: async_mutex vs FIFO model under seeded lock/unlock/cancel schedules"),
+    "C11": dict(level=EXPL, quick=24000, thorough=800000, components=["async_mutex"], extra_sweeps=[("C11x", 0.4)],
+                rule="system runs: non-trivial = >= 1 reconnect; C11x runs: detail::autoconnect_stream on its own under one reader and one serialised writer, with cancel()+close()+open() of the same stream object; component: async_mutex vs FIFO model under seeded lock/unlock/cancel schedules"),
     "C12": dict(level=EXPL, quick=24000, thorough=800000,
                 rule="keep-alive configurations x traffic/silence patterns in exact virtual time; non-trivial = a PINGREQ was observed or a keep-alive timeout was judged; distinct = distinct trace hash"),
     "C13": dict(level=EXPL, quick=30000, thorough=1000000,
